@@ -163,9 +163,14 @@ def is_ncname(s: str) -> bool:
     return Patterns.ncname.match(s) is not None
 
 
+def split_white_spaces(s: str) -> list[str]:
+    """Splits a string at the XML white space characters (#x20, #x9, #xA, #xD)."""
+    return [x for x in Patterns.whitespaces.split(s) if x]
+
+
 def is_idrefs(value: Optional[str]) -> bool:
     return isinstance(value, str) and \
-        all(Patterns.ncname.match(x) is not None for x in value.split())
+        all(Patterns.ncname.match(x) is not None for x in split_white_spaces(value))
 
 
 ###
